@@ -18,13 +18,14 @@ RULE = ("cbcheck*: hypothesis draws model parameters + an integer seed; refs/cbm
         "joints K_e = B^T k_e B, B = [-R_ij, I], k_e SPD with eigenvalue spread 3..300, lumped 6x6 masses "
         "with SPD inertia and optional CG offsets, stiffness scaled so that the FIRST ELASTIC FREE-FREE "
         "FREQUENCY IS 1..50 Hz), reduces it (own constraint modes, scipy eigh fixed-interface modes, "
-        "0..all retained) for 1..3 boundary grids in basic / cylindrical / spherical output systems, and "
+        "1..all retained) for 1..3 boundary grids in basic / cylindrical / spherical output systems, and "
         "embeds Mcb/Kcb in a b-first, b-last or interleaved DOF layout.  The USET table comes from "
         "n2p.addgrid (cross-checked against the reference geometry) in matrix order, optionally with "
         "extra non-b grids; bseto = identity or a swap of two boundary grids; bref = one grid or a "
         "statically determinate mix over several grids (rb_norm None/True/False); uref = grid id / xyz / "
-        "default; conv None / 'm2e' / 'e2m' / random pair; reorder True/False; n_freefree_modes 6..40; "
-        "report to StringIO or a file.  Domain restriction imposed by the code (verified in "
+        "default; conv None / 'm2e' / 'e2m' / (length, mass) pair; reorder True/False (then b-first, or b-last "
+        "without rb_norm); n_freefree_modes 25 / 40 / 100; boundary masses optionally x 1e-3 (effective mass "
+        "~100 %); report to StringIO or a file.  Domain restriction imposed by the code (verified in "
         "cb._solve_eig): eigsh(k, p, m, sigma=1.0) returns the p eigenvalues nearest 1 (rad/s)^2 in "
         "ascending order and cbcheck takes the first six as rigid-body modes, so K - 1.0 M must be well "
         "conditioned and fewer than p-6 elastic eigenvalues may lie in (0, 2): guaranteed by elastic "
@@ -33,15 +34,17 @@ RULE = ("cbcheck*: hypothesis draws model parameters + an integer seed; refs/cbm
         "rb_norm) on b rows, 0 on modal rows; rb^T M rb = analytic 6x6 rigid mass from the lumped data; "
         "cgmass of it = total mass, sum(m x)/sum(m), parallel-axis inertia; K rb = 0 relative to |K||rb|; "
         "effmass = (Phi^T (M rb)_i)^2, cb_frq, sum(effmass) + (boundary-grid mass + truncated modes) = "
-        "total per direction, percent table, 100 % when all modes kept and boundary massless; returned "
+        "total per direction, percent table = 100 effmass / diag(rigid mass); returned "
         "m, k, uset = own permutation / dimensional analysis; printed movement checks 1.000, refpoint "
         "PASS, printed RB'*K*RB sums 0.  cbcheck_faulty: spring on one boundary DOF of Kcb (printed "
         "geometry-based RB'*K*RB = kappa rb_d^T rb_d, refpoint FAIL), spring on an interior physical DOF "
         "before reduction, or one boundary grid moved in the USET only (rbg rows and printed K*RB sums "
         "= those of the moved geometry, stiffness/eigen-based modes and masses still the true ones).  "
-        "cbcheck_perm3 / cbcheck_noreorder_split / cbcheck_noreorder_rbnorm: input classes on which "
-        "cbcheck is suspected defective (3-cycles of boundary grids; reorder=False with a non-contiguous "
-        "b-set or with rb_norm and a b-set not starting at 0), same oracle.  cbtf: random symmetric "
+        "cbcheck_perm3 / cbcheck_noreorder_split / cbcheck_noreorder_rbnorm / cbcheck_nomodes / cbcheck_bigunits "
+        "/ cbtf_noq_order: input classes on which the code is suspected defective, same oracles, kept apart "
+        "(3-cycles of boundary grids; reorder=False with a non-contiguous b-set, or with rb_norm and a "
+        "b-set not starting at 0; no retained mode; conv to units with mass x length ~1e8; cbtf without "
+        "modal DOF and a b-set other than arange(n)).  cbtf: random symmetric "
         "(optionally complex) m, k in CB form (k_bq = 0, modal parts full), b none / diagonal modal / "
         "full modal / fully coupled, b-set = any index subset in any order, 1..10 frequencies incl. 0 Hz "
         "and points 1e-3 off a fixed-base resonance, complex boundary acceleration as vector or matrix, "
@@ -76,7 +79,7 @@ EPS = util.EPS
 TOL_RB = 1e-7        # geometry-/stiffness-based rigid-body vectors / max(1, length) (observed <= 2e-10)
 TOL_MASS = 1e-7      # 6x6 masses, mass properties, effective mass / dimensional scale (observed <= 5e-10)
 TOL_EIG = 1e-4       # everything derived from the eigenvalue-based modes (observed <= 5e-7)
-TOL_KRB = 1e-8       # |K rb| / (|K|max |rb|max n)                    (observed <= 3e-11)
+TOL_KRB = 1e-10      # |K rb| / (|K| n), K and rb made dimensionless   (observed <= 6e-14)
 TOL_EXACT = 1e-12    # permutation / unit factors / round trips       (observed <= 5e-16)
 TOL_PRINT = 0.00051  # 3 decimals in the report
 TOL_TF = 2.0e4       # cbtf: x eps x conditioning                     (observed <= 100)
@@ -499,6 +502,10 @@ def oracle_cbcheck(case, R):
     # ---- rigid-body motion produces no stiffness force
     kmax = float(np.abs(out.k).max()) or 1.0
     kcol = np.array([1, 1, 1, srb, srb, srb])
+    # dimensionless stiffness: rotations x length, modal DOF / sqrt(mass)
+    srow = np.full(n, 1.0 / math.sqrt(mtot))
+    srow[bs_d] = np.tile(kcol, nbg)
+    ksmax = float(np.abs(out.k / np.outer(srow, srow)).max()) or 1.0
     tests = []
     if not fault:
         tests = [("geometry", out.k[B] @ rbg_d, 1.0), ("stiffness", out.k @ rbs, float(np.abs(Nrm).max())),
@@ -506,7 +513,8 @@ def oracle_cbcheck(case, R):
     elif moved:
         tests = [("stiffness", out.k @ rbs, float(np.abs(Nrm).max())), ("eigen", out.k @ rbe, float(np.abs(Nrm).max()))]
     for nm, frc, ns in tests:
-        e = float(np.abs(frc / kcol).max()) / (kmax * n * max(1.0, ns))
+        rs = srow[bs_d] if frc.shape[0] == nb else srow
+        e = float(np.abs(frc / kcol / rs[:, None]).max()) / (ksmax * n * max(1.0, ns))
         R.metric(f"K_rb/(|K| n) {nm}", e)
         R.check(e <= (max(TOL_KRB, tol_e) if nm == "eigen" else TOL_KRB), f"grounding_{nm}_based",
                 f"|K rb|/(|K| n)={e:.3g}")
